@@ -75,9 +75,13 @@ def check(ctx):
     idx_reset = [i for i, s in enumerate(body) if norm(s) == "self.__dict__[FIELDS_SET_ATTR] = set()"]
     idx_call = [i for i, s in enumerate(body) if isinstance(s, ast.Try) and "old_init(self, *args, **kwargs)" in norm(s)]
     ctx.check(bool(idx_reset) and bool(idx_call) and idx_reset[0] < idx_call[0], "C15.R2", ni.qualname + ":reset-before-init", body[0], "the tracked set must be reset before the original __init__ runs (its own attribute assignments are not user-set fields)", ni, ni.node, detail="reset; old_init; recompute")
-    ts = norm(ns.node)
-    ok = "self.__dict__[FIELDS_SET_ATTR].add(attr)" in ts and "old_setattr(self, attr, value)" in ts and ts.index("add(attr)") < ts.index("old_setattr(self, attr, value)")
-    ctx.check(ok, "C15.R2", ns.qualname, ns.node.body[0], "__setattr__ wrapper must add the attribute to the tracked set and delegate", ns, ns.node, detail="add(attr); old_setattr(...)")
+    # the attribute is recorded only once the original __setattr__ has succeeded (it raises for a frozen class):
+    # position of the two statements in the wrapper's body
+    i_add = [i for i, s_ in enumerate(ns.node.body) if any(isinstance(c_, ast.Call) and isinstance(c_.func, ast.Attribute) and c_.func.attr == "add" and [norm(a_) for a_ in c_.args] == ["attr"] for c_ in ast.walk(s_))]
+    i_set = [i for i, s_ in enumerate(ns.node.body) if any(isinstance(c_, ast.Call) and norm(c_.func) == "old_setattr" and [norm(a_) for a_ in c_.args] == ["self", "attr", "value"] for c_ in ast.walk(s_))]
+    ok = len(i_add) == 1 and len(i_set) == 1 and i_set[0] < i_add[0]
+    ctx.check(ok, "C15.R2", ns.qualname, ns.node.body[0], "__setattr__ wrapper must delegate to the original __setattr__ and then add the attribute to the tracked set: recorded first, a refused assignment (frozen dataclass) still marks the field as set and exclude_unset emits it", ns, ns.node, detail="old_setattr(self, attr, value); then add(attr)")
+    ctx.check("FIELDS_SET_ATTR" in norm(ns.node) and "dataclass_before_error" in norm(ns.node), "C15.R2", ns.qualname + ":live-set", ns.node.body[0], "__setattr__ wrapper no longer updates the instance's own tracked set", ns, ns.node, detail="self.__dict__[FIELDS_SET_ATTR]")
     ctx.check("post_init_fields.add(field.name)" in t and "DEFAULT_AS_SET_METADATA" in t and "not field.init" in t and "_FIELD_INITVAR" in t, "C15.R2", f"{w.qualname}:field-classes", w.node.body[0],
               "with_fields_set no longer classifies init=False / default_as_set fields (always set) and InitVars (never set)", w, w.node, detail="post_init_fields / init_fields")
 
@@ -93,8 +97,19 @@ def check(ctx):
     ctx.check("return getattr(obj, FIELDS_SET_ATTR)" in norm(fs.node), "C15.R3", fs.qualname, fs.node.body[0], "_fields_set must return the live set object (not a copy): set_fields / unset_fields mutate it", fs, fs.node, detail="the live set")
     rp = model.func("apischema.dataclasses._replace")
     t = norm(rp.node)
-    ok = "set_fields(result, *fields_set(__obj), *changes, overwrite=True)" in t and "hasattr(__obj, FIELDS_SET_ATTR)" in t
-    ctx.check(ok, "C15.R3", rp.qualname, rp.node.body[-1], "dataclasses.replace must give the copy the original's set plus the changed fields", rp, rp.node, detail="set_fields(result, *fields_set(obj), *changes, overwrite=True)")
+    calls = [c_ for c_ in ast.walk(rp.node) if isinstance(c_, ast.Call) and norm(c_.func) == "set_fields"]
+    ok = len(calls) == 1 and "hasattr(__obj, FIELDS_SET_ATTR)" in t
+    if ok:
+        c_ = calls[0]
+        stars = [norm(a_.value) for a_ in c_.args if isinstance(a_, ast.Starred)]
+        kws = {k_.arg: norm(k_.value) for k_ in c_.keywords}
+        ok = norm(c_.args[0]) == "result" and "fields_set(__obj)" in stars and kws.get("overwrite") == "True"
+        changed = [x for x in stars if "changes" in x]
+        # InitVar pseudo-fields (added to `changes` to work around bpo-36470, or given by the caller) are not fields
+        excl = bool(changed) and any(" - " in x for x in changed) and "_FIELD_INITVAR" in t
+        ctx.check(ok and excl, "C15.R3", rp.qualname, c_, "dataclasses.replace must give the copy the original's set plus the changed *fields*: the names of InitVar pseudo-fields, which replace adds to `changes` itself, must be excluded like the constructor wrapper does", rp, c_, detail="set_fields(result, *fields_set(obj), *(changes - init vars), overwrite=True)")
+    else:
+        ctx.fail("C15.R3", rp.qualname, None, "dataclasses.replace no longer transfers the fields set to the copy", rp.module.relpath, rp.node.lineno)
 
     # ---------------- R4
     ctx.rule("C15.R4", "deserialization constructs tracked classes through their (wrapped) constructor with the present keys only", floor=4)
@@ -131,12 +146,14 @@ def mutants(mb):
     mb.add_text("exclude-unset-untracked", S, "exclude_unset = self.exclude_unset and support_fields_set(cls)", "exclude_unset = self.exclude_unset", "C15.R1", "exclude_unset")
     mb.add_text("selection-without-unset", S, "                typed_dict\n                or exclude_unset\n                or field_alias is None", "                typed_dict\n                or field_alias is None", "C15.R1", "selection")
     mb.add_text("emit-when-unset", SM, "else (not self.exclude_unset or self.name in getattr(obj, FIELDS_SET_ATTR))", "else (self.exclude_unset or self.name in getattr(obj, FIELDS_SET_ATTR))", "C15.R1", "update_result")
-    mb.add_text("setattr-not-tracked", Fp, "            self.__dict__[FIELDS_SET_ATTR].add(attr)\n", "            self.__dict__[FIELDS_SET_ATTR]\n", "C15.R2", "new_setattr")
+    mb.add_text("setattr-not-tracked", Fp, "        fields_set.add(attr)  # only if the assignment succeeded (e.g. frozen class)\n", "", "C15.R2", "new_setattr")
+    mb.add_text("setattr-tracked-before-assignment", Fp, "        old_setattr(self, attr, value)  # type: ignore\n        fields_set.add(attr)  # only if the assignment succeeded (e.g. frozen class)\n", "        fields_set.add(attr)\n        old_setattr(self, attr, value)  # type: ignore\n", "C15.R2", "new_setattr")
     mb.add_text("init-drops-prev", Fp, "self.__dict__[FIELDS_SET_ATTR] = prev_fields_set | arg_fields | post_init_fields", "self.__dict__[FIELDS_SET_ATTR] = arg_fields | post_init_fields", "C15.R2", "new_init")
     mb.add_text("init-counts-initvars", Fp, "arg_fields = {*params[: len(args)], *kwargs} - init_fields", "arg_fields = {*params[: len(args)], *kwargs}", "C15.R2", "new_init")
     mb.add_text("unset-clears", Fp, "    _fields_set(obj).difference_update(map(get_field_name, fields))", "    _fields_set(obj).intersection_update(map(get_field_name, fields))", "C15.R3", "unset_fields")
     mb.add_text("fields-set-copy", Fp, "        return getattr(obj, FIELDS_SET_ATTR)\n", "        return set(getattr(obj, FIELDS_SET_ATTR))\n", "C15.R3", "_fields_set")
-    mb.add_text("replace-loses-set", "apischema/dataclasses.py", "        set_fields(result, *fields_set(__obj), *changes, overwrite=True)", "        set_fields(result, *changes, overwrite=True)", "C15.R3", "_replace")
+    mb.add_text("replace-loses-set", "apischema/dataclasses.py", "            result, *fields_set(__obj), *(changes.keys() - init_vars), overwrite=True\n", "            result, *(changes.keys() - init_vars), overwrite=True\n", "C15.R3", "_replace")
+    mb.add_text("replace-marks-initvars", "apischema/dataclasses.py", "            result, *fields_set(__obj), *(changes.keys() - init_vars), overwrite=True\n", "            result, *fields_set(__obj), *changes, overwrite=True\n", "C15.R3", "_replace")
     mb.add_text("raw-ignores-new", D, "        and cls.__new__ is object.__new__\n", "", "C15.R4", "is_raw_dataclass")
     mb.add_text("values-default-filled", DM, "            elif field.required:\n                field_errors = set_child_error(\n                    field_errors, field.alias, ValidationError(self.missing)\n                )\n            elif field.required_by is not None", "            elif field.required:\n                field_errors = set_child_error(\n                    field_errors, field.alias, ValidationError(self.missing)\n                )\n            elif field.name in dict(self.init_defaults):\n                values[field.name] = None\n            elif field.required_by is not None", "C15.R4", "values[field.name]")
     mb.add_text("neg-init-renamed-locals", Fp, "        arg_fields = {*params[: len(args)], *kwargs} - init_fields\n        self.__dict__[FIELDS_SET_ATTR] = prev_fields_set | arg_fields | post_init_fields",
